@@ -342,3 +342,20 @@ impl Lowerer<'_, '_> {
         }
     }
 }
+
+/// Verification hook (C03): the lowerer's own `needs_drop` decision for a
+/// type, without lowering anything.
+#[cfg(feature = "verif-hooks")]
+pub fn verif_needs_drop(ctx: &mut LowerCtx<'_>, ty: TyRef) -> bool {
+    let scope = ctx.type_info.scope_graph.root();
+    let mut lowerer = Lowerer {
+        ctx,
+        tmp_idx: 0,
+        force_reference_return: false,
+        function_scope: scope,
+        return_type: TyRef::UNIT,
+        blocks: Vec::new(),
+        variables: Vec::new(),
+    };
+    lowerer.needs_drop(ty)
+}
